@@ -759,6 +759,8 @@ class IRGenerator:
                 raise InvalidSpec(
                     'Cannot mark reference to nullable type as nullable.',
                     *loc)
+            if isinstance(unwrapped_dt, Void):
+                raise InvalidSpec('Void cannot be marked nullable.', *loc)
 
     def _populate_struct_type_attributes(self, env, data_type):
         """
@@ -1280,6 +1282,8 @@ class IRGenerator:
                 raise InvalidSpec(
                     'Cannot mark reference to nullable type as nullable.',
                     *loc)
+            if isinstance(unwrapped_dt, Void):
+                raise InvalidSpec('Void cannot be marked nullable.', *loc)
             data_type = Nullable(data_type)
             self._nullable_refs.append((data_type, loc))
 
